@@ -5,5 +5,5 @@ cd "$(dirname "$0")"
 export GOFLAGS=-mod=mod GOPROXY=off
 mkdir -p bin evidence
 make -C killat >/dev/null
-( cd harness && go build -tags verif -o ../bin/lsmc ./cmd/lsmc )
+./tools/build.sh /repo "$(pwd)/harness" "$(pwd)/bin/lsmc"
 echo "setup ok"
